@@ -46,38 +46,9 @@ def block_of(prog, stmt) -> Optional[list]:
     return None
 
 
-def check(ctx):
-    prog = ctx.prog
-    R = roles_of(prog)
-    opt = R.optimize
-
-    # ---- the iteration counter: index used by the record block
-    records = []  # (call, key, value, idx)
-    for fn in [opt]:
-        for node in ast.walk(fn.node):
-            if isinstance(node, ast.Call) and isinstance(node.func, ast.Attribute) and node.func.attr == "record" and canon(node.func.value) == "HIST" and len(node.args) == 3:
-                k = const_str(node.args[0])
-                if k:
-                    records.append((node, k, node.args[1], canon(node.args[2])))
-    # the record block = the block containing the record of "u"
-    ublocks = [(c, prog.parent(c)) for c, k, v, i in records if k == "u"]
-    if not ublocks:
-        ctx.rule("R2", "one record block per iteration with one index; x = inverse(u); value keys read the incumbent", floor=7)
-        ctx.missing(opt, "record of history key 'u' (the iterate) in optimize()")
-        return
-    rec_stmt = ublocks[0][1]
-    rec_block = block_of(prog, rec_stmt)
-    in_block = [(c, k, v, i) for c, k, v, i in records if block_of(prog, prog.parent(c)) is rec_block]
-    iter_idx = in_block[0][3]
-
-    # ---- restore slot: self.u = self.<X>
-    restore_attr = None
-    for t, v, s, k in iter_stores(opt.node):
-        if self_attr_of(t) == "u" and isinstance(t, ast.Attribute) and isinstance(v, ast.Attribute) and self_attr_of(v) not in (None, "u"):
-            restore_attr = self_attr_of(v)
-
+def tuple_coherence(ctx, prog, R, opt, iter_idx, restore_attr, rule_id="R1"):
     # ------------------------------------------------------------------ R1
-    ctx.rule("R1", "incumbent value/estimate/SD and the point slots move together from the same history index", floor=2)
+    ctx.rule(rule_id, "incumbent value/estimate/SD and the point slots move together from the same history index", floor=2)
     blocks: Dict[int, dict] = {}
     for fn in R.bads.methods.values():
         for t, v, s, k in iter_stores(fn.node):
@@ -111,7 +82,11 @@ def check(ctx):
                 a = self_attr_of(t)
                 if a and isinstance(t, ast.Attribute):
                     stores[a] = (v, st)
-        need = ["u"] + ([restore_attr] if restore_attr else [])
+        # the point the next iteration works on: the restore slot if the loop re-synchronises
+        # self.u from it at the top of every iteration, else self.u itself
+        need = [restore_attr] if restore_attr else ["u"]
+        if "u" in stores and "u" not in need:
+            need = ["u"] + need
         ok = True
         for a in need:
             if a not in stores:
@@ -128,11 +103,59 @@ def check(ctx):
             else:
                 # copy of another point slot assigned in this block
                 src = self_attr_of(v.func.value) if isinstance(v, ast.Call) and isinstance(v.func, ast.Attribute) and v.func.attr == "copy" else self_attr_of(v) if isinstance(v, ast.Attribute) else None
-                if src not in need or src not in stores or src == a:
+                if src not in ("u", restore_attr) or src not in stores or src == a:
                     ctx.fail(fn, st, f"point slot self.{a} is not assigned from the history iterate at index {idx}", construct=f"self.{a} <- {canon(v)}")
                     ok = False
         if ok:
             ctx.ok(fn, first, f"swap to iterate {idx}: values and point slots {need} assigned together")
+
+
+
+def record_context(prog, R):
+    """-> (iteration index name of the record block, restore slot) or None."""
+    opt = R.optimize
+    idxs = []
+    for node in ast.walk(opt.node):
+        if isinstance(node, ast.Call) and isinstance(node.func, ast.Attribute) and node.func.attr == "record" and canon(node.func.value) == "HIST" and len(node.args) == 3 and const_str(node.args[0]) == "u":
+            idxs.append(canon(node.args[2]))
+    restore = None
+    for t, v, s, k in iter_stores(opt.node):
+        if self_attr_of(t) == "u" and isinstance(t, ast.Attribute) and isinstance(v, ast.Attribute) and self_attr_of(v) not in (None, "u"):
+            restore = self_attr_of(v)
+    return (idxs[0] if idxs else None), restore
+
+
+def check(ctx):
+    prog = ctx.prog
+    R = roles_of(prog)
+    opt = R.optimize
+
+    # ---- the iteration counter: index used by the record block
+    records = []  # (call, key, value, idx)
+    for fn in [opt]:
+        for node in ast.walk(fn.node):
+            if isinstance(node, ast.Call) and isinstance(node.func, ast.Attribute) and node.func.attr == "record" and canon(node.func.value) == "HIST" and len(node.args) == 3:
+                k = const_str(node.args[0])
+                if k:
+                    records.append((node, k, node.args[1], canon(node.args[2])))
+    # the record block = the block containing the record of "u"
+    ublocks = [(c, prog.parent(c)) for c, k, v, i in records if k == "u"]
+    if not ublocks:
+        ctx.rule("R2", "one record block per iteration with one index; x = inverse(u); value keys read the incumbent", floor=7)
+        ctx.missing(opt, "record of history key 'u' (the iterate) in optimize()")
+        return
+    rec_stmt = ublocks[0][1]
+    rec_block = block_of(prog, rec_stmt)
+    in_block = [(c, k, v, i) for c, k, v, i in records if block_of(prog, prog.parent(c)) is rec_block]
+    iter_idx = in_block[0][3]
+
+    # ---- restore slot: self.u = self.<X>
+    restore_attr = None
+    for t, v, s, k in iter_stores(opt.node):
+        if self_attr_of(t) == "u" and isinstance(t, ast.Attribute) and isinstance(v, ast.Attribute) and self_attr_of(v) not in (None, "u"):
+            restore_attr = self_attr_of(v)
+
+    tuple_coherence(ctx, prog, R, opt, iter_idx, restore_attr)
 
     # D1 write-only attributes (diagnostic)
     reads, writes = set(), {}
